@@ -266,4 +266,19 @@ PROPS = {
                       "after draining a non-empty queue on cancel (it ranges over a channel nobody closes): a leak, not a lost sample.",
         "assumptions": ["sync.RWMutex is a correct mutex", "channel operations are atomic steps"],
     },
+    "C15": {
+        "streams": ["recorder"],
+        "rule": "recorder: every call sequence of length <= 2 (thorough: 3) over a 16-call alphabet (four increments incl. an out-of-range histogram value, three gauge setters, Begin/"
+                "EndIteration, SetTime, SetDuration, SetTotalDuration, SetID, EndTest, Reset), each followed by EndTest, x ten constructors (raw, single, grouped, interval, four "
+                "histogram variants, synchronized and stdlib-shim wrappers) x intervals {0, 1 h}; random sequences of 5-45 calls with a snapshotting collector failing on chosen Add "
+                "calls. Explicit durations are whole seconds, so elapsed-time parts (bounded against the wall clock by the oracle) do not disturb the comparison. Distinct = case line.",
+        "level_text": "Theorems (Props/C15.lean) for every state and kind of the reference model: only EndIteration/EndTest can persist; single/interval kinds never persist at EndIteration; "
+                      "raw persists at every EndIteration; grouped exactly when the interval has elapsed; increments add exactly their argument to their own counter; setters leave "
+                      "counters alone; gauges are the last value set; after EndTest or Reset everything but the gauges is zero; EndTest returns the accumulated error count (plus its own "
+                      "failing Add) and restarts from zero; failing collector calls and rejected histogram values are counted.",
+        "level_note": "time.Now is the symbol NOW and time.Since an uninterpreted elapsed part in the model; the grouped gate is decided for intervals 0 and 1 h only. Histogram samples are "
+                      "read from the PerformanceHDR struct by the snapshotting collector (marshalling a 1.4-million-entry histogram through birch is quadratic and does not finish). The "
+                      "interval recorders' ticker-driven persistence is C16. Finding F14 (grouped histogram recorder ignored its interval) is fixed.",
+        "assumptions": ["the whole case runs in under a second of elapsed time"],
+    },
 }
